@@ -273,6 +273,45 @@ fn offer_sequence(t: &mut Tracer, g: &GenHead, ps: &[usize], api: &str) {
     }
 }
 
+/// a head written out by hand (directed cases): status line, the given fields, empty line, then a few further bytes
+fn manual_head(status: u16, fields: &[(&str, &[u8])]) -> GenHead {
+    let mut b = format!("HTTP/1.1 {} Directed\r\n", status).into_bytes();
+    let sl = b.len();
+    let mut ends = vec![];
+    let mut locs = vec![];
+    let mut fs = vec![];
+    for (i, (n, v)) in fields.iter().enumerate() {
+        b.extend(n.as_bytes());
+        b.extend(b": ");
+        b.extend(*v);
+        b.extend(b"\r\n");
+        ends.push(b.len());
+        if n.eq_ignore_ascii_case("location") {
+            locs.push(i + 1);
+        }
+        fs.push((n.to_ascii_lowercase(), v.to_vec()));
+    }
+    b.extend(b"\r\n");
+    let h = b.len();
+    b.extend(b"\r\nabc");
+    GenHead { bytes: b, h, sl, ends, locs, status, method: String::new(), http10: false, fields: fs }
+}
+
+/// one offer of the whole head (and a little more) to a flow of the given request method
+fn offer_to_method(t: &mut Tracer, g: &GenHead, method: &str) {
+    let p = g.bytes.len();
+    let mut f = flow_recv_response(method);
+    match guarded(|| f.try_response(&g.bytes)) {
+        None => t.ev(json!({"ev":"panic","during":"try_response"})),
+        Some(Err(e)) => t.ev(err_event("flow", p, 128, &e)),
+        Some(Ok((c, None))) => t.ev(json!({"ev":"offer","api":"flow","p":p,"limit":128,"res":"none","c":c,"head_ok":true,"toomany":false})),
+        Some(Ok((c, Some(r)))) => {
+            let ok = r.status().as_u16() == g.status && version_is_10(r.version()) == g.http10 && actual_map(r.headers()) == expected_map(&g.fields);
+            t.ev(json!({"ev":"offer","api":"flow","p":p,"limit":128,"res":"some","c":c,"head_ok":ok,"toomany":false}));
+        }
+    }
+}
+
 /// The head is offered to a receiver that has already handed out an interim response, which itself arrived in two
 /// pieces (cut at `cut`): what the receiver remembers from the earlier head must not matter.
 fn offer_after_interim(t: &mut Tracer, g: &GenHead, api: &str, cut: usize) {
@@ -436,6 +475,34 @@ pub fn c05(o: &Opts, t: &mut Tracer) -> Value {
             t.class("offer:after-split-interim");
         }
     }
+    // directed: every field name that means something elsewhere in the protocol, with an obs-text value, on several
+    // statuses and to receivers of every method — to the head parser they are fields like any other
+    let obs: &[u8] = b"/caf\xe9/\x80\xff?x=1";
+    for (k, name) in LOADED_NAMES.iter().chain(["Location", "Content-Location", "Link"].iter()).enumerate() {
+        for (j, status) in [200u16, 201, 302, 404, 204].iter().enumerate() {
+            let g = manual_head(*status, &[("X-Before", b"1"), (name, obs), ("X-After", b"2")]);
+            selfcheck_head(&g);
+            t.case(json!({"ev":"case","comp":"head","lay":g.lay(),"note":format!("directed {} on {}", name, status)}));
+            t.sig(format!("directed/{}/{}", name, status));
+            offer_to_method(t, &g, METHODS[(k + j) % 9]);
+            offer_flow(t, &g, g.h, "call");
+            offers += 2;
+        }
+    }
+    // framing fields on responses that have no body by rule (2xx to CONNECT, HEAD, 204, 304): still fields of the head
+    for (k, method) in ["CONNECT", "HEAD", "GET", "POST", "CONNECT"].iter().enumerate() {
+        for status in [200u16, 204, 304, 201, 299] {
+            for fields in [&[("Content-Length", &b"5"[..]), ("X-A", &b"b"[..])][..], &[("Transfer-Encoding", &b"chunked"[..])][..], &[("Transfer-Encoding", &b"gzip, chunked"[..]), ("Content-Length", &b"7"[..]), ("Trailer", &b"X-T"[..])][..]] {
+                let g = manual_head(status, fields);
+                t.case(json!({"ev":"case","comp":"head","lay":g.lay(),"note":format!("directed framing fields, {} {}", method, status)}));
+                t.sig(format!("directed-framing/{}/{}/{}", method, status, fields.len()));
+                offer_to_method(t, &g, method);
+                offers += 1;
+                let _ = k;
+            }
+        }
+    }
+    t.class("offer:directed");
     json!({"offers": offers})
 }
 
